@@ -46,6 +46,14 @@ def rngOf (lo hi : Sexp) : Option Rng := do
   let h ← hi.int?
   pure ⟨l, h⟩
 
+/-- an instant travels as (seconds since 0001-01-01T00:00:00Z, nanoseconds 0..999999999); the model counts nanoseconds -/
+def instantOf (s n : Sexp) : Option Int := do
+  let s' ← s.int?
+  let n' ← n.int?
+  if n' < 0 || n' > 999999999 then none else some (s' * 1000000000 + n')
+
+def instantStr (z : Int) : String := s!"{Int.ediv z 1000000000} {Int.emod z 1000000000}"
+
 /-- `(txt <utf-8 bytes>)`: the type a type EXPRESSION denotes — `Context.ParseType` as the syntax model (C05) has it, then
     carried over to the lattice terms -/
 def tyOfText (e : Sexp) : Option Ty :=
@@ -74,6 +82,10 @@ partial def tyOf : Sexp → Option Ty
   | .list [.atom "bool", .atom "n"] => some (.bool none)
   | .list [.atom "bool", b] => b.bool?.map fun x => .bool (some x)
   | .list [.atom "tspan", lo, hi] => (rngOf lo hi).map .tspan
+  | .list [.atom "tstamp", s1, n1, s2, n2] => do
+      let lo ← instantOf s1 n1
+      let hi ← instantOf s2 n2
+      pure (.tstamp ⟨lo, hi⟩)
   | .list [.atom "strsz", lo, hi] => (rngOf lo hi).map .strSz
   | .list [.atom "strval", s] => s.str?.map .strVal
   | .list (.atom "enum" :: ci :: vs) => do
@@ -125,6 +137,7 @@ partial def tyStr : Ty → String
   | .bool none => "(bool n)"
   | .bool (some b) => s!"(bool {boolStr b})"
   | .tspan r => s!"(tspan {rngStr r})"
+  | .tstamp r => s!"(tstamp {instantStr r.lo} {instantStr r.hi})"
   | .strSz r => s!"(strsz {rngStr r})"
   | .strVal s => s!"(strval {hexOfString s})"
   | .enum vs ci => "(enum " ++ boolStr ci ++ String.join (vs.map fun v => " " ++ hexOfString v) ++ ")"
@@ -156,6 +169,7 @@ partial def valOf : Sexp → Option Val
   | .list [.atom "rxv", s] => s.str?.map .regexp
   | .list [.atom "binv", s] => s.bytes?.map .binary
   | .list [.atom "ts", n] => n.int?.map .tspan
+  | .list [.atom "tsv", s, n] => (instantOf s n).map .tstamp
   | .list (.atom "a" :: vs) => (vs.mapM valOf).map .array
   | .list (.atom "h" :: es) =>
       (es.mapM fun (e : Sexp) => match e with
